@@ -237,7 +237,62 @@ def gen(rng, tier):
         lines += ["h.dump hs"]; b_h = len(lines)
         cases.append({"lines": lines, "meta": {"stateorder": {"a": [a_r, a_w, a_h], "b": [b_r, b_w, b_h], "load": ld, "order": [p_.split()[0] for p_ in pieces]},
                                                "queries": [], "ncmd": 0, "expect_counts": []}, "nontrivial": True})
+    # objects deleted by script in any order: what is left is what the bookkeeping model (CvModel/Objects.lean) leaves — deleting a
+    # variable takes every bias registered with it along (any number of them), deleting a bias takes only itself, and the module steps on
+    for k in range(6 if tier == "quick" else 60):
+        nv = rng.randint(2, 4); nb = rng.randint(1, 5)
+        vs = ["x%d" % i for i in range(nv)]
+        vconf = "".join(inj_cv(v, i, -3.0, 3.0, 0.5) for i, v in enumerate(vs))
+        deps = []
+        bconf = ""
+        for j in range(nb):
+            on = sorted(rng.sample(vs, rng.randint(1, min(3, nv))))
+            if k % 3 == 0 and j < 3:
+                on = sorted(set(on + [vs[0]]))            # several biases on one variable
+            deps.append(("b%d" % j, on))
+            bconf += "harmonic {\n name b%d\n colvars %s\n centers %s\n forceConstant 1.0\n}\n" % (j, " ".join(on), " ".join("0.0" for _ in on))
+        lines = ["m.new %d" % nv, "M.noclock", cfg(vconf + bconf),
+                 "O.objs cvs=%s deps=%s" % (",".join(vs), ",".join("%s:%s" % (b, "+".join(o)) for b, o in deps))]
+        cur_v = list(vs); cur_b = list(deps)
+        track = []
+        def step():
+            for a in range(nv):
+                lines.append(pos(a, 0.0, 0.0, rng.uniform(-1, 1)))
+            lines.append("m.step")
+        step()
+        for t in range(rng.randint(2, 5)):
+            if not cur_v and not cur_b:
+                break
+            if cur_v and (rng.rand() < 0.6 or not cur_b):
+                v = rng.choice(cur_v)
+                lines.append("o.delvar " + v)
+                cur_v = [x for x in cur_v if x != v]; cur_b = [(b, o) for b, o in cur_b if v not in o]
+            else:
+                b = rng.choice(cur_b)[0]
+                lines.append("o.delbias " + b)
+                cur_b = [(b_, o) for b_, o in cur_b if b_ != b]
+            track.append((len(lines), list(cur_v), [b_ for b_, _ in cur_b]))
+            lines.append("m.counts")
+            step()
+        cases.append({"lines": lines, "meta": {"objects": {"track": track, "deps": deps}, "queries": [], "ncmd": 0, "expect_counts": []}, "nontrivial": True})
     return cases
+
+
+def objects_oracle(ob, out):
+    """independent bookkeeping (the generator's own): names left after every deletion, and the counts the module reports next"""
+    for ln, vs, bs in ob["track"]:
+        v = out.get((ln, "objs", 1))
+        if v is None:
+            return ["no object list after the deletion at op line %d" % ln]
+        got = tok_val(v[0])[1]
+        want = ",".join(vs) + "|" + ",".join(bs)
+        if got != want:
+            return ["after the deletion at op line %d the module holds %s, expected %s (biases configured as %s)"
+                    % (ln, got, want, "; ".join("%s on %s" % (b, "+".join(o)) for b, o in ob["deps"]))]
+        ncv = vals(out, ln + 1, "ncv"); nb = vals(out, ln + 1, "nb")
+        if ncv is None or nb is None or ncv[0] != len(vs) or nb[0] != len(bs):
+            return ["after the deletion at op line %d the module counts %s variables and %s biases, expected %d and %d" % (ln, ncv, nb, len(vs), len(bs))]
+    return []
 
 
 def stateorder_oracle(so, out):
@@ -327,6 +382,8 @@ def oracle(case, out):
         return flags_oracle(case["meta"]["flags"], out)
     if case["meta"].get("stateorder"):
         return stateorder_oracle(case["meta"]["stateorder"], out)
+    if case["meta"].get("objects"):
+        return objects_oracle(case["meta"]["objects"], out)
     # translator cross-check: the regenerated table equals the table of the running library
     for i, line in enumerate(L, 1):
         if line == "s.table":
